@@ -83,6 +83,15 @@ func alphabet() []symbol {
 	out = append(out, symbol{"M(params+election)", func(w *mon.SessWorld, s *mon.SS, g *gen.Gen) []string {
 		return w.SendMulti(s, &spb.ModifyRequest{Params: sp, ElectionId: relID(w, "high")})
 	}})
+	out = append(out, symbol{"M(params+zero-election)", func(w *mon.SessWorld, s *mon.SS, g *gen.Gen) []string {
+		// a present but all-zero election id still populates the field
+		return w.SendMulti(s, &spb.ModifyRequest{Params: sp, ElectionId: &spb.Uint128{}})
+	}})
+	out = append(out, symbol{"M(zero-election+op)", func(w *mon.SessWorld, s *mon.SS, g *gen.Gen) []string {
+		o := oneOp(g)[0]
+		o.Op.ElectionId = relID(w, "equal")
+		return w.SendMulti(s, &spb.ModifyRequest{ElectionId: &spb.Uint128{}, Operation: []*spb.AFTOperation{o.Op}})
+	}})
 	out = append(out, symbol{"M(params+op)", func(w *mon.SessWorld, s *mon.SS, g *gen.Gen) []string {
 		o := oneOp(g)[0]
 		o.Op.ElectionId = relID(w, "equal")
@@ -317,5 +326,5 @@ func TestCheck(t *testing.T) {
 	}
 	run.Sample(map[string]any{"alphabet": names, "bystander_configurations": bystanderCfgs, "start_states": startStates})
 	run.Assume("expected termination statuses: INVALID_ARGUMENT for multi-field messages and the zero id; FAILED_PRECONDITION+MODIFY_NOT_ALLOWED for late/repeated parameters; UNIMPLEMENTED or FAILED_PRECONDITION with UNSUPPORTED_PARAMS for unsupported modes; FAILED_PRECONDITION+PARAMS_DIFFER_FROM_OTHER_CLIENTS for differing parameters; FAILED_PRECONDITION+ELECTION_ID_IN_ALL_PRIMARY for an election id without SINGLE_PRIMARY; UNIMPLEMENTED+UNSUPPORTED_PARAMS for operations without negotiation; any non-OK status (or in-band FAILED) for operations without / before / above an election id. Where two violations coincide either status is accepted; whether an un-negotiated live session constrains newcomers is left open")
-	run.Finish("ALL sequences of length <= 3 over an 18-symbol alphabet {8 session-parameter combinations, election zero/low/equal/high, operation with/without id, 4 multi-field messages} on one session started in each of 4 states (fresh; negotiated; negotiated and primary; negotiated and superseded), in each of 6 bystander configurations (none; negotiated RIB/FIB primary with installed entries; un-negotiated session; combinations) - exhaustive for that space - plus random sequences of length 4-12; after EVERY message the termination status (code + ModifyRPCErrorDetails reason), the complete hooked server state vs the model and the silence of the other streams are checked; afterwards a fresh session must be able to negotiate and sees the unchanged maximum id. 1 in 97 sequences run over real gRPC", 1000, false)
+	run.Finish("ALL sequences of length <= 3 over a 20-symbol alphabet {8 session-parameter combinations, election zero/low/equal/high, operation with/without id, 6 multi-field messages incl. two whose election id is present but all-zero} on one session started in each of 4 states (fresh; negotiated; negotiated and primary; negotiated and superseded), in each of 6 bystander configurations (none; negotiated RIB/FIB primary with installed entries; un-negotiated session; combinations) - exhaustive for that space - plus random sequences of length 4-12; after EVERY message the termination status (code + ModifyRPCErrorDetails reason), the complete hooked server state vs the model and the silence of the other streams are checked; afterwards a fresh session must be able to negotiate and sees the unchanged maximum id. 1 in 97 sequences run over real gRPC", 1000, false)
 }
